@@ -8,7 +8,8 @@
                      (v = 0), the k-th one a write cut short (v = 1), power loss after k operations (v = 2) *)
 From Coq Require Import List NArith Lia.
 From Coq Require Import Permutation ZArith.
-From C19 Require Import Model ProofsMap ProofsIds ProofsAgg ProofsProto ProofsMerge ProofsDir ProofsProxy ProofsNames.
+From C19 Require Import Model ModelStart ProofsMap ProofsIds ProofsAgg ProofsProto ProofsMerge ProofsDir ProofsProxy ProofsNames
+  ProofsStart ProofsPool.
 Import ListNotations.
 
 (* thm:C19_resume_complete, part 1 — the first run (StartSearch + processRequest on an empty directory):
@@ -250,3 +251,121 @@ Proof.
   - repeat constructor; simpl; intuition discriminate.
   - simpl. repeat constructor; simpl; unfold evok, nonneg; simpl; try lia; try reflexivity.
 Qed.
+
+(* ======================================================================================================
+   Histories that begin with the start (proxy/search/async.go StartAsyncSearch) and the ownership of the
+   pooled compression buffer (fracmanager/async_searcher.go processFrac). Definitions:
+     proxy_start pattern   the calls Ingestor.StartAsyncSearch makes, as (shard, replica), and the shard whose
+                           error ended it (None = an ID is returned); pattern = what every replica of every
+                           shard answers (SAccept / SRefuse = any error), in the configured order
+     shard_good s          s has no replicas, or some replica accepts and all before it refuse
+     calls_of i shards     per shard the replicas 0 .. first acceptor (all of them if none accepts)
+     keeps reps c          the replica that accepted the start answers the fetch (it still has the request)
+     wfp st                pool state: every existing buffer has a number below the next fresh one *)
+
+(* an ID is returned only if every shard (that has replicas) has a replica that accepted the request — for
+   every number of shards and replicas, every replica order and every failure pattern; the calls are exactly
+   the replicas up to the first acceptor of every shard *)
+Theorem C19_proxy_start_all_shards : forall shards calls, proxy_start shards = (calls, None) ->
+  Forall shard_good shards /\ calls = calls_of 0 shards.
+Proof. exact proxy_start_all_shards. Qed.
+Print Assumptions C19_proxy_start_all_shards.
+
+(* ... and the start fails at the first shard that has replicas none of which accepts; later shards are
+   not asked *)
+Theorem C19_proxy_start_fails : forall shards calls k, proxy_start shards = (calls, Some k) ->
+  exists s, nth_error shards k = Some s /\ s <> [] /\ Forall (eq SRefuse) s
+            /\ calls = calls_of 0 (firstn (S k) shards).
+Proof. exact proxy_start_fails. Qed.
+Print Assumptions C19_proxy_start_fails.
+
+(* a store that accepted the start (StartSearch returns after mkdir + the atomic write of <id>.info = 6
+   operations) has the request after ANY chain of crashes and restarts: resumable or finished, found at
+   load time, and its handler answers (never NotFound) — a restart does not lose the request *)
+Theorem C19_accepted_request_survives : forall fs k v rest hi rev per, (6 <= k)%nat ->
+  let s := chain_state fs [] (start_ops fs) ((k, v) :: rest) in
+  (inv fs s \/ final fs s) /\ found s = true
+  /\ store_reply hi rev per s = RAnswer (is_done s) (fetch_dir hi rev per s).
+Proof. exact accepted_request_survives. Qed.
+Print Assumptions C19_accepted_request_survives.
+
+(* C19_proxy_done_iff for histories that begin with a successful start: as long as the stores that
+   accepted keep the request (previous theorem), EVERY shard of the cluster answers the fetch; Done is the
+   conjunction over all shards and the answer is one MergeQPRs over all of them *)
+Theorem C19_proxy_done_iff_started : forall pattern cluster naggs size hi rev d q,
+  start_succeeds pattern = true -> Forall (fun s => s <> []) pattern -> Forall2 keeps pattern cluster ->
+  proxy_fetch naggs size hi rev cluster = Some (d, q) ->
+  exists ans, Forall2 (fun c a => shard_answer c = Some a) cluster ans
+              /\ d = forallb fst ans /\ q = sync_search naggs size hi rev (map snd ans).
+Proof. exact proxy_done_iff_started. Qed.
+Print Assumptions C19_proxy_done_iff_started.
+
+(* C19_proxy_done_result for such histories: finals = what each shard of the cluster answers once it is done
+   (one entry per shard of the start, by C19_resumed_equals_sync its synchronous answer); a Done answer is the
+   synchronous merge over ALL shards *)
+Theorem C19_proxy_done_result_started : forall pattern cluster naggs size hi rev q finals,
+  start_succeeds pattern = true -> Forall (fun s => s <> []) pattern -> Forall2 keeps pattern cluster ->
+  proxy_fetch naggs size hi rev cluster = Some (true, q) ->
+  Forall2 (fun c f => forall a, shard_answer c = Some a -> fst a = true -> snd a = f) cluster finals ->
+  length finals = length pattern /\ q = sync_search naggs size hi rev finals.
+Proof. exact proxy_done_result_started. Qed.
+Print Assumptions C19_proxy_done_result_started.
+
+(* non-vacuity: a start that succeeds through a second replica, the cluster afterwards, the Done answer *)
+Example C19_started_hypotheses_witness :
+  let pattern := [[SAccept]; [SRefuse; SAccept]] in
+  let cluster := cluster_after pattern [(true, w_s0); (true, w_s1)] in
+  proxy_start pattern = ([(0, 0); (1, 0); (1, 1)]%nat, None)
+  /\ start_succeeds pattern = true /\ Forall (fun s => s <> []) pattern /\ Forall2 keeps pattern cluster
+  /\ cluster = [[RAnswer true w_s0]; [RNotFound; RAnswer true w_s1]]
+  /\ option_map (fun x => (fst x, q_ids (snd x))) (proxy_fetch 0 100 10 false cluster)
+     = Some (true, [(1040, 1); (1030, 1); (1025, 1); (1015, 1)]%N).
+Proof.
+  split; [reflexivity|]. split; [reflexivity|]. split; [repeat constructor; discriminate|].
+  split; [apply cluster_after_keeps; reflexivity|]. split; reflexivity.
+Qed.
+
+(* the shadowed error (`_, err := ...` inside the replica loop) is refuted: every replica of shard 1 refuses,
+   the real start fails at shard 1 and hands out no ID; the shadowed variant returns an ID, and the fetch
+   reports Done with the IDs of shard 0 only *)
+Example C19_proxy_start_shadowed_err_refuted :
+  let pattern := [[SAccept]; [SRefuse; SRefuse]] in
+  let avail := [(true, w_s0); (true, w_s1)] in
+  proxy_start pattern = ([(0, 0); (1, 0); (1, 1)]%nat, Some 1%nat)
+  /\ start_then_fetch 0 100 10 false pattern avail = None
+  /\ snd (proxy_start_shadow pattern) = None
+  /\ option_map (option_map (fun x => (fst x, q_ids (snd x)))) (start_then_fetch_shadow 0 100 10 false pattern avail)
+     = Some (Some (true, [(1040, 1); (1030, 1)]%N))
+  /\ q_ids (sync_search 0 100 10 false [w_s0; w_s1]) = [(1040, 1); (1030, 1); (1025, 1); (1015, 1)]%N.
+Proof. exact start_shadow_refuted. Qed.
+
+(* processFrac: Acquire, Compress into the buffer, write the file, Release — interleaved with ARBITRARY steps
+   of other users of the global bytes pool (who acquire any free or fresh buffer, write only into buffers
+   they hold and release those): the bytes written to <id>.<frac>.qpr are the compression of the fraction's
+   result, for every compression function, payload, buffer handed out and interleaving *)
+Theorem C19_frac_bytes_private : forall cp payload pick sched st, wfp st ->
+  let st' := run_prog cp payload (prog_ok pick) sched st in
+  p_file st' = Some (cp payload) /\ wfp st'.
+Proof. exact frac_bytes_private. Qed.
+Print Assumptions C19_frac_bytes_private.
+
+(* ... for all fractions of a request on the same pool: every file is complete, so the directory of a run
+   under pool pressure is the directory of the persistence protocol (C19_start_crash_safe etc. apply) *)
+Theorem C19_qpr_bytes_private : forall cp payload plan st, wfp st ->
+  pool_fracs cp payload prog_ok plan st = map (fun p => CQpr (fst p)) plan
+  /\ pool_run_dir cp payload prog_ok plan st = apply_ops [] (start_ops (map fst plan)).
+Proof. exact qpr_bytes_private. Qed.
+Print Assumptions C19_qpr_bytes_private.
+
+Example C19_pool_hypothesis_witness : wfp pool_empty.
+Proof. exact pool_empty_wfp. Qed.
+
+(* the release-before-write order (compression in a helper with `defer Release`, returning buf.B) is
+   refuted: another goroutine acquires the released buffer and fills it before the file is written *)
+Example C19_release_before_write_refuted :
+  let sched := [[]; []; []; [OAcquire (Some 0); OFill 0 [170; 170; 170]]; []]%N in
+  p_file (run_prog toy_cp [1; 2; 3]%N (prog_release_first None) sched pool_empty) = Some [170; 170; 170; 253; 1; 2; 3]%N
+  /\ pool_fracs toy_cp (fun f => [f]) prog_release_first [(7, (None, sched))]%N pool_empty = [CTorn]
+  /\ p_file (run_prog toy_cp [1; 2; 3]%N (prog_ok None) sched pool_empty) = Some (toy_cp [1; 2; 3]%N)
+  /\ pool_fracs toy_cp (fun f => [f]) prog_ok [(7, (None, sched))]%N pool_empty = [CQpr 7%N].
+Proof. exact release_first_refuted. Qed.
